@@ -35,6 +35,14 @@ def drivers(tier):
             explicit_ids=(1,), max_autos=1,
             shapes=((), ('A',), ('HKR',), ('A', 'HKR')), **common),
             dict(max_states=400000, time_budget=400))
+        # an on_remove callback that raises (once) while the deferred
+        # deletion is applied: the frame fails, later frames must not
+        d['raising-callback'] = (WorldDriver(
+            'raising-callback', types=('A', 'HR'), ids=(1, 2),
+            explicit_ids=(1,), max_autos=1,
+            shapes=((), ('A',), ('HR',), ('A', 'HR'), ('HR', 'A')),
+            **common),
+            dict(max_states=400000, time_budget=400))
         # identifiers of unrelated (not mutually orderable) types
         d['mixed-ids'] = (WorldDriver(
             'mixed-ids', types=('A',), ids=(1, 's', (2, 3)),
@@ -42,6 +50,12 @@ def drivers(tier):
             shapes=((), ('A',)), **common),
             dict(max_states=400000, time_budget=400))
     else:
+        d['raising-callback'] = (WorldDriver(
+            'raising-callback', types=('A', 'B', 'HR'), ids=(1, 2),
+            explicit_ids=(1, 2), max_autos=1,
+            shapes=((), ('A',), ('HR',), ('A', 'HR'), ('HR', 'A'),
+                    ('B', 'HR')), **common),
+            dict(max_states=1500000, time_budget=1500))
         d['mixed-ids'] = (WorldDriver(
             'mixed-ids', types=('A', 'HD'), ids=(1, 's', (2, 3)),
             explicit_ids=('s', (2, 3)), max_autos=1,
@@ -68,10 +82,16 @@ def run(tier, rep):
         'isolation (no other pending deletion at the same time)',
         'a pending mark whose entity row disappeared before the frame '
         'boundary may be kept or dropped (decided by observation, once)',
+        'part raising-callback: an on_remove callback raises once (the '
+        'exception type derives from the look-up errors a library catches '
+        'for its own control flow); the operation it interrupts may leave '
+        'anything behind (branch closed there), but of the next three '
+        'process() calls at least one completes',
     ]
     rep.require_hits(process_with_pending=1, delete_twice=1,
                      pending_row_vanished=1, delete_from_inside_frame=1,
                      delete_from_on_remove=1,
+                     frame_failed_by_raising_callback=1,
                      bogus_delete_keyerror=0)
     for name, (driver, kw) in drivers(tier).items():
         kernel.explore(driver, rep, part=name, params=driver.params(), **kw)
